@@ -74,8 +74,18 @@ def run(chk: Check) -> None:
     prog = chk.prog
     total_paths = 0
     for qual, outer_q in ADAPTERS:
-        f = prog.func(qual)
+        f = prog.try_func(qual)
         outer = prog.func(outer_q)
+        rets_o = [s_ for s_ in outer.node.body if isinstance(s_, ast.Return)]
+        own_future = len(rets_o) == 1 and isinstance(rets_o[0].value, ast.Name) and any(
+            isinstance(n_, ast.Assign) and any(isinstance(t_, ast.Name) and t_.id == rets_o[0].value.id for t_ in n_.targets) and isinstance(n_.value, ast.Call)
+            and norm(n_.value.func) in ('kiwipy.Future', 'loop.create_future', 'futures.Future', 'asyncio.Future') for n_ in ast.walk(outer.node))
+        if f is None or not own_future:
+            # the adapter no longer resolves a future of its own in a callback this analysis can see (delegated to asyncio.wrap_future or the like):
+            # exactly-once delivery and the identity of the delivered exception (kiwipy / concurrent CancelledError vs asyncio's) are not established
+            chk.ob('FUT-exactly-once', outer, False, f'{outer.short} no longer has the callback {qual.split(".")[-1]} that resolves its output future inside capture_exceptions: how (and whether) '
+                   'result, exception and cancellation reach the caller is left to code outside plumpy', kind='adapter-callback-present')
+            continue
         out = output_future(chk, outer)
         cfg = cfg_of(f)
         n_paths = 0
